@@ -114,3 +114,55 @@ pub fn nonce_gap(spec: SpecId) -> Case {
     ];
     Case::new("nonce-gap", spec, db, txs)
 }
+
+/// tx0: slot0 := 1; tx1: if slot0 != 0 { slot1 := 1 } (writes a *new* location only when it
+/// re-executes after tx0); tx2: slot2 := slot1 + 5 (reads slot1 from storage at first). A rewind
+/// caused by tx1's re-execution must also invalidate an earlier validation of tx2.
+pub fn late_write_chain(spec: SpecId) -> Case {
+    use crate::world::op::*;
+    let code = Asm::new()
+        .push(0)
+        .op(CALLDATALOAD)
+        .op(DUP1)
+        .push(1)
+        .op(EQ)
+        .push_label("op1")
+        .op(JUMPI)
+        .op(DUP1)
+        .push(2)
+        .op(EQ)
+        .push_label("op2")
+        .op(JUMPI)
+        // op0: slot0 := 1
+        .push(1)
+        .push(0)
+        .op(SSTORE)
+        .op(STOP)
+        .label("op1")
+        .push(0)
+        .op(SLOAD)
+        .op(ISZERO)
+        .push_label("done")
+        .op(JUMPI)
+        .push(1)
+        .push(1)
+        .op(SSTORE)
+        .label("done")
+        .op(STOP)
+        .label("op2")
+        .push(1)
+        .op(SLOAD)
+        .push(5)
+        .op(ADD)
+        .push(2)
+        .op(SSTORE)
+        .op(STOP)
+        .build();
+    let mut db = MemDb::default();
+    rich(&mut db, 3);
+    db.deploy(contract(12), code);
+    let txs = (0..3)
+        .map(|i| (format!("late.op{i}(e{i})"), call(eoa(i), 0, contract(12), &[word(i)])))
+        .collect();
+    Case::new("late-write-chain", spec, db, txs)
+}
